@@ -65,6 +65,40 @@ type Server struct {
 	BanList         BanMgr
 
 	MessageBoard io.ReadWriteSeeker
+
+	// boardMu and agreementMu make "rewind, then read to the end" (and a post) one step: MessageBoard and Agreement
+	// each have a single read cursor shared by every connection.
+	boardMu     sync.Mutex
+	agreementMu sync.Mutex
+}
+
+// ReadMessageBoard returns the complete current text of the message board.
+func (s *Server) ReadMessageBoard() ([]byte, error) {
+	s.boardMu.Lock()
+	defer s.boardMu.Unlock()
+
+	_, _ = s.MessageBoard.Seek(0, 0)
+
+	return io.ReadAll(s.MessageBoard)
+}
+
+// PostMessageBoard adds a post to the message board; it does not interleave with a ReadMessageBoard in progress.
+func (s *Server) PostMessageBoard(post []byte) (int, error) {
+	s.boardMu.Lock()
+	defer s.boardMu.Unlock()
+
+	return s.MessageBoard.Write(post)
+}
+
+// readAgreement returns the complete agreement text.
+func (s *Server) readAgreement() []byte {
+	s.agreementMu.Lock()
+	defer s.agreementMu.Unlock()
+
+	_, _ = s.Agreement.Seek(0, 0)
+	data, _ := io.ReadAll(s.Agreement)
+
+	return data
 }
 
 type Option = func(s *Server)
@@ -496,10 +530,7 @@ func (s *Server) handleNewConnection(ctx context.Context, rwc io.ReadWriteCloser
 			c.Server.outbox <- NewTransaction(TranShowAgreement, c.ID, NewField(FieldNoServerAgreement, []byte{1}))
 		}
 	} else {
-		_, _ = c.Server.Agreement.Seek(0, 0)
-		data, _ := io.ReadAll(c.Server.Agreement)
-
-		c.Server.outbox <- NewTransaction(TranShowAgreement, c.ID, NewField(FieldData, data))
+		c.Server.outbox <- NewTransaction(TranShowAgreement, c.ID, NewField(FieldData, c.Server.readAgreement()))
 	}
 
 	// If the client has provided a username as part of the login, we can infer that it is using the 1.2.3 login
